@@ -242,7 +242,8 @@ def main():
     tier = args.tier if args.tier in ('quick', 'thorough') else 'quick'
     seed = int(os.environ.get('VERIF_SEED', '0') or 0)
     t0 = time.time()
-    evidence_path = os.path.join(VERIF, 'evidence', pid + '.json')
+    # development runs against a copy (VERIF_REPO) never touch the committed evidence
+    evidence_path = os.path.join(VERIF, 'evidence-dev' if 'VERIF_REPO' in os.environ else 'evidence', pid + '.json')
     os.makedirs(os.path.dirname(evidence_path), exist_ok=True)
 
     try:
